@@ -6,6 +6,7 @@ import (
 	"bytes"
 	"encoding/json"
 	"fmt"
+	"html/template"
 	"net/http"
 	"net/http/httptest"
 	"net/url"
@@ -80,7 +81,12 @@ func c20NewEnv(hook func(kind, key string)) *c20Env {
 	c20Seed(ms)
 	e := &c20Env{wrap: sched.NewWrapper(ms)}
 	e.wrap.Hook = hook
-	srv, err := samlidp.New(samlidp.Options{URL: mustURL(c19Root), Key: fx.K("idp_s1").Key, Certificate: fx.K("idp_s1").Cert, Store: e.wrap})
+	opts := samlidp.Options{URL: mustURL(c19Root), Key: fx.K("idp_s1").Key, Certificate: fx.K("idp_s1").Cert, Store: e.wrap}
+	c20EnvCount++
+	if c20EnvCount%2 == 0 { // every second server is configured with the application's own login page (one shared template value)
+		opts.LoginFormTemplate = c20CustomLogin
+	}
+	srv, err := samlidp.New(opts)
 	if err != nil {
 		panic(err)
 	}
@@ -132,7 +138,7 @@ func (e *c20Env) request(kind int, rnd func(int) int) (string, *http.Request) {
 		}
 		return r
 	}
-	switch kind % 22 {
+	switch kind % 25 {
 	case 0:
 		return "GET /metadata", httptest.NewRequest("GET", c19Root+"/metadata", nil)
 	case 1:
@@ -190,6 +196,18 @@ func (e *c20Env) request(kind int, rnd func(int) int) (string, *http.Request) {
 		r := httptest.NewRequest("POST", c19Root+"/sso", strings.NewReader(f.Encode()))
 		r.Header.Set("Content-Type", "application/x-www-form-urlencoded")
 		return "POST /sso+credentials", r
+	case 22: // no session cookie: the login page is rendered
+		sp := e.sps[rnd(2)]
+		ar, _ := sp.sp.MakeAuthenticationRequest(c19Root+"/sso", saml.HTTPRedirectBinding, saml.HTTPPostBinding)
+		u, _ := ar.Redirect("rs", sp.sp)
+		return "GET /sso (no cookie)", httptest.NewRequest("GET", u.String(), nil)
+	case 23: // wrong password: the login page with a toast
+		f := url.Values{"user": {users[rnd(2)]}, "password": {"wrong"}}
+		r := httptest.NewRequest("POST", c19Root+"/login", strings.NewReader(f.Encode()))
+		r.Header.Set("Content-Type", "application/x-www-form-urlencoded")
+		return "POST /login (wrong password)", r
+	case 24:
+		return "GET /login/sc1 (no cookie)", httptest.NewRequest("GET", c19Root+"/login/sc1", nil)
 	default:
 		return "POST /services", httptest.NewRequest("POST", c19Root+"/services/"+svcs[rnd(2)], bytes.NewReader(e.sps[rnd(2)].mdXML))
 	}
@@ -314,7 +332,7 @@ func c20Stress(c *core.Ctx) {
 					return int((state >> 33) % uint64(n))
 				}
 				for k := 0; k < reqs; k++ {
-					name, r := e.request(rnd(22), rnd)
+					name, r := e.request(rnd(25), rnd)
 					code := e.serve(r)
 					served.Add(1)
 					statuses[i][fmt.Sprintf("%s=%d", name, code)]++
@@ -943,3 +961,7 @@ func c20SingleWriter(c *core.Ctx) {
 		}
 	}
 }
+
+var c20EnvCount int
+
+var c20CustomLogin = template.Must(template.New("custom-login").Parse(`<html><body><h1>Sign in</h1><p class="toast">{{.Toast}}</p><form method="post" action="{{.URL}}"><input name="user"/><input type="password" name="password"/><input type="hidden" name="SAMLRequest" value="{{.SAMLRequest}}"/><input type="hidden" name="RelayState" value="{{.RelayState}}"/><button>Log in</button></form></body></html>`))
